@@ -34,6 +34,7 @@ type propInfo struct {
 	assume    []string
 	rule      string
 	maxShards int
+	envMatrix []string // real UPDATE_SNAPS values, one group of processes per value
 }
 
 var baseAssume = []string{
@@ -59,11 +60,13 @@ func reg(p *propInfo) {
 	props[p.id] = p
 }
 
+var updMatrix = []string{"", "true", "clean", "yes"}
+
 func init() {
 	for _, id := range []string{"C01", "C02", "C03", "C04", "C07", "C09", "C10", "C16", "C17", "C18", "C19"} {
 		reg(&propInfo{id: id, engine: "inproc", pkg: "snaps", level: "model_checking"})
 	}
-	reg(&propInfo{id: "C05", engine: "inproc", pkg: "snaps", level: "model_checking", needsE3: true})
+	reg(&propInfo{id: "C05", engine: "inproc", pkg: "snaps", level: "model_checking", needsE3: true, envMatrix: updMatrix, shardsQ: 4, shardsT: 4})
 	reg(&propInfo{id: "C06", engine: "inproc", pkg: "snaps", level: "model_checking", racePass: true, shardsQ: 16})
 	reg(&propInfo{id: "C12", engine: "inproc", pkg: "snaps", level: "model_checking", racePass: true})
 	reg(&propInfo{id: "C20", engine: "inproc", pkg: "snaps", level: "model_checking", racePass: true})
@@ -224,14 +227,14 @@ func runInproc(p *propInfo, tier string, seed int, scratch, replay string, shard
 	if tier == "thorough" {
 		to = p.timeoutT
 	}
-	results := runShards(bin, p.id, tier, seed, scratch, replay, n, to, "")
+	results := runShards(bin, p, tier, seed, scratch, replay, n, to, "")
 	m := merge(results)
 	if p.racePass && replay == "" {
 		rbin, err := buildTestBinary(scratch, p.pkg, true)
 		if err != nil {
 			fatal(2, "%v", err)
 		}
-		rr := runShards(rbin, p.id, tier, seed, scratch, "", 1, to, "race")
+		rr := runShards(rbin, p, tier, seed, scratch, "", 1, to, "race")
 		m.absorbRace(rr)
 	}
 	if p.needsE3 && replay == "" {
@@ -247,7 +250,20 @@ type shardOut struct {
 	err    error
 }
 
-func runShards(bin, prop, tier string, seed int, scratch, replay string, n int, to time.Duration, mode string) []shardOut {
+func runShards(bin string, p *propInfo, tier string, seed int, scratch, replay string, n int, to time.Duration, mode string) []shardOut {
+	prop := p.id
+	matrix := p.envMatrix
+	if mode == "race" {
+		matrix = nil
+	}
+	if replay != "" && matrix != nil {
+		// a replay runs under the environment recorded in the case
+		matrix = []string{replayEnv(replay)}
+	}
+	sub := n
+	if matrix != nil {
+		n = len(matrix) * sub
+	}
 	outs := make([]shardOut, n)
 	done := make(chan int, n)
 	for i := 0; i < n; i++ {
@@ -261,7 +277,7 @@ func runShards(bin, prop, tier string, seed int, scratch, replay string, n int, 
 			cmd.Dir = wdir
 			env := []string{
 				"PATH=" + os.Getenv("PATH"), "HOME=" + os.Getenv("HOME"), "NO_COLOR=1",
-				"VERIF_PROP=" + prop, "VERIF_TIER=" + tier, fmt.Sprintf("VERIF_SHARD=%d/%d", i, n),
+				"VERIF_PROP=" + prop, "VERIF_TIER=" + tier, fmt.Sprintf("VERIF_SHARD=%d/%d", i/max(len(matrix), 1), sub),
 				"VERIF_OUT=" + outp, "VERIF_SCRATCH=" + wdir, fmt.Sprintf("VERIF_SEED=%d", seed),
 				"VERIF_MODE=" + mode, "VERIF_BIN=" + bin, "GOMAXPROCS=2",
 				"VERIF_DEADLINE=" + fmt.Sprint(time.Now().Add(to*8/10).Unix()),
@@ -272,6 +288,11 @@ func runShards(bin, prop, tier string, seed int, scratch, replay string, n int, 
 			}
 			if replay != "" {
 				env = append(env, "VERIF_REPLAY="+replay)
+			}
+			if matrix != nil {
+				if v := matrix[i%len(matrix)]; v != "" {
+					env = append(env, "UPDATE_SNAPS="+v)
+				}
 			}
 			for _, k := range []string{"VERIF_DEBUG", "VERIF_CASEFILTER"} {
 				if v := os.Getenv(k); v != "" {
@@ -310,6 +331,21 @@ func runShards(bin, prop, tier string, seed int, scratch, replay string, n int, 
 		<-done
 	}
 	return outs
+}
+
+// replayEnv extracts the UPDATE_SNAPS value recorded in a replay file's case.
+func replayEnv(path string) string {
+	b, err := os.ReadFile(path)
+	if err != nil {
+		return ""
+	}
+	var rf struct {
+		Case struct {
+			Env string `json:"env"`
+		} `json:"case"`
+	}
+	json.Unmarshal(b, &rf)
+	return rf.Case.Env
 }
 
 func splitRaceReports(s string) []string {
